@@ -24,7 +24,7 @@ def run(c):
                  (dkvlib.consts(MaxOps=12, MaxReads=6, MaxLen=64, MemCap=45, L0Trigger=4), 2)]
     for i, (cs, conc) in enumerate(cfgs):
         dkvlib.replay(c, cs, n, 70, c.seed * 100 + i, "Dkv read replay MemCap=%d L0=%d" % (cs["MemCap"], cs["L0Trigger"]), conc=conc,
-                      check_restore=False, CheckFs=False)
+                      check_restore=False, CheckFs=False, ReadFaults=True)
     dkvlib.trace_arm(c, 40 if q else 500, 150 if q else 300, c.seed)
     dkvlib.bulk_arm(c, 3000 if q else 12000)
     c.assumptions += ["one foreground goroutine issues Put/Delete/Get/ScanPrefix (the operator's event loop), background tasks interleave at the 6 gate points",
